@@ -1581,6 +1581,7 @@ package tree
 // MaxLengthPath (property C05): a branch without length is an error; the length returned is never negative and is 0
 // exactly when no path is returned; a longer candidate replaces the current one only when strictly longer
 //@ func tree.MaxLengthPath
+//@   flag countcalls
 //@   requires cur != nil && INV12()
 //@   allocates []*Edge, iface
 //@   assigns nothing
@@ -1592,6 +1593,7 @@ package tree
 //@     complete [all_iterations_no_early_exit]
 //@     invariant [best_path_in_storage_of_its_own] (arr(potentialedges) == 0 || fresh_arr(potentialedges)) && oldarrays_same("*Edge")
 //@     invariant [best_so_far] curlength >= 0.0 && (len(potentialedges) == 0 ==> curlength == 0.0) && (len(potentialedges) > 0 ==> curlength > 0.0) && INV12() && cur != nil
+//@     step [every_subtree_away_from_the_origin_is_searched_whatever_the_length_of_its_branch] ghost(ncalls_MaxLengthPath) == atHead(ghost(ncalls_MaxLengthPath)) + (cur.neigh[rangeindex + 1] != prev ? 1 : 0)
 //@     step [a_candidate_replaces_the_best_only_when_strictly_longer] next(curlength) >= curlength && (next(curlength) > curlength ==> len(next(potentialedges)) > 0 && next(potentialedges)[len(next(potentialedges)) - 1] == cur.br[rangeindex + 1])
 
 // Midpoint rooting (property C05): no fault when every path has length zero (an error is returned); the new root
